@@ -48,5 +48,5 @@ Definition unicast_params : params := {params(nt.UNICAST_REPEAT_PARAMS)}.
 Definition multicast_params : params := {params(nt.MULTICAST_REPEAT_PARAMS)}.
 Definition known_ids_cap : nat := {deque_maxlen()}%nat.
 '''
-print(json.dumps({'text': text,
+print(json.dumps({'rel': 'Wsd/Gen_Params.v', 'text': text,
                   'unicast': list(vars(nt.UNICAST_REPEAT_PARAMS).values()) if hasattr(nt.UNICAST_REPEAT_PARAMS, '__dict__') else None}))
